@@ -23,6 +23,8 @@ OPS = ["new", "add", "ifloordiv", "floordiv", "matmul", "imatmul", "barrier", "c
 def gen_program(rng, nstmts):
     """Returns list of statements (python dicts) — sizes tracked so most statements are admissible."""
     vars_m = {}          # var -> m
+    leaves = {}          # var -> number of leaf matrices in it (the exact model multiplies them all: bounded below)
+    MAX_LEAVES = 10
     frozen = set()       # nested by reference somewhere: not mutated afterwards
     nonempty = set()
     prog = []
@@ -31,6 +33,7 @@ def gen_program(rng, nstmts):
     m0 = rng.rint(2, 6)
     prog.append({"op": "new", "v": 0, "m": m0})
     vars_m[0] = m0
+    leaves[0] = 0
     while len(prog) < nstmts:
         op = rng.choice(["new", "add", "add", "add", "add_range", "ifloordiv", "ifloordiv", "floordiv", "floordiv", "matmul",
                          "imatmul", "barrier", "copy"])
@@ -42,6 +45,7 @@ def gen_program(rng, nstmts):
             m = rng.rint(1, 5)
             prog.append({"op": "new", "v": v, "m": m})
             vars_m[v] = m
+            leaves[v] = 0
             continue
         mutable = [v for v in vars_m if v not in frozen]
         if op in ("add", "add_range", "ifloordiv", "imatmul", "barrier"):
@@ -60,6 +64,7 @@ def gen_program(rng, nstmts):
                 continue
             prog.append({"op": "copy", "dst": dst, "v": v})
             vars_m[dst] = vars_m[v]
+            leaves[dst] = leaves.get(v, 0)
             if v in nonempty:
                 nonempty.add(dst)
             else:
@@ -68,6 +73,9 @@ def gen_program(rng, nstmts):
         m = vars_m[v]
         # operand
         cand = [w for w in vars_m if w != v and vars_m[w] <= m]
+        cand = [w for w in cand if leaves.get(v, 0) + leaves.get(w, 0) <= MAX_LEAVES]
+        if leaves.get(v, 0) >= MAX_LEAVES:
+            continue
         if cand and rng.chance(2, 5):
             w = rng.choice(cand)
             operand = {"var": w}
@@ -128,6 +136,7 @@ def gen_program(rng, nstmts):
         if ok:
             tgt = st.get("dst", v)
             vars_m[tgt] = m
+            leaves[tgt] = leaves.get(v, 0) + (leaves.get(operand["var"], 0) if "var" in operand else 1)
             nonempty.add(tgt)
             if "var" in operand:
                 w = operand["var"]
